@@ -38,6 +38,7 @@ func (Sim) Assumptions() []string {
 	return []string{
 		"the justified set J is the closure of the root location under a set-valued resolution that contains both the loader's documented behaviour and RFC 3986 for every spelling (relative: directory of the containing document; absolute path: both the local file and the same-host URL; scheme/host present: the reference itself); any \"$ref\" string anywhere in a document's true content justifies its targets",
 		"reads are observed at the storage seam; with the default reader, reads answered by the library's process-wide URI cache are not observable (so observed reads are a subset of attempted ones; every location carries a per-run marker so the cache never links two runs)",
+		"generator restrictions: no query strings in references; no dot-segments climbing above the storage root except in canaries; for roots loaded from memory no document refers back to the root's storage copy",
 		"C02 is claimed for two clauses only: a read that fails and never succeeds for that location makes the load fail; loading terminates within a read budget and an instrumentation-step budget",
 	}
 }
@@ -324,7 +325,7 @@ func (Sim) Run(raw json.RawMessage, prop string, keep bool) (res simfw.Result) {
 				}
 			default:
 				if !J[ev.Loc] {
-					kind, why := classifyUnjustified(ev.Loc, readSoFar, refsOf, baseOf, rootBase, rootRefs, rootLoc, rootHasLocation)
+					kind, why := classifyUnjustified(ev.Loc, readSoFar, refsOf, baseOf, rootBase, rootRefs, rootLoc, rootHasLocation, func(l string) []byte { return st.Files[l] })
 					res.Violate("C11", "justified", "C11/"+sig(kind), fmt.Sprintf("the loader read %q via %s; no reference in any reachable document resolves to it%s", ev.Loc, ev.Via, why))
 				} else if s.Reader == "func" && !isRoot {
 					// temporal form: some document already delivered refers to it
@@ -393,6 +394,28 @@ func (Sim) Run(raw json.RawMessage, prop string, keep bool) (res simfw.Result) {
 			res.Probe("load-err")
 		}
 	}
+	// ---- a further in-memory load on the same Loader: it may not read anything ----
+	if s.ThenMemory != nil {
+		first := len(st.Events)
+		mem, _ := json.Marshal(s.ThenMemory)
+		log.Add("sim", "load", "in-memory document on the same loader", "")
+		func() {
+			defer func() {
+				if p := recover(); p != nil {
+					res.Probe("loader-panic")
+				}
+			}()
+			zzsimrt.ResetMapOrder(s.MapSeed)
+			defer zzsimrt.ResetMapOrder(0)
+			_, err := loader.LoadFromData(mem)
+			log.Add("sim", "loaded", "", fmt.Sprintf("err=%v", err != nil))
+		}()
+		res.Probe("then-memory-load")
+		for _, ev := range st.Events[first:] {
+			res.Violate("C11", "in-memory", "C11/"+sig("read-during-in-memory-load"), fmt.Sprintf("a document without any external reference was loaded from memory on a reused Loader, yet the loader read %q via %s", ev.Loc, ev.Via))
+			break
+		}
+	}
 	for k, v := range st.Fired {
 		for i := 0; i < v; i++ {
 			res.Fault(k)
@@ -418,7 +441,7 @@ func (Sim) Run(raw json.RawMessage, prop string, keep bool) (res simfw.Result) {
 // a fragment reference (known finding K1). Anything else is a plain
 // "unjustified-read".
 func classifyUnjustified(loc string, readSoFar map[string]bool, refsOf map[string][]string, baseOf map[string]*url.URL,
-	rootBase *url.URL, rootRefs []string, rootLoc string, rootHasLocation bool) (string, string) {
+	rootBase *url.URL, rootRefs []string, rootLoc string, rootHasLocation bool, contentOf func(string) []byte) (string, string) {
 	type docT struct {
 		loc  string
 		base *url.URL
@@ -434,9 +457,8 @@ func classifyUnjustified(loc string, readSoFar map[string]bool, refsOf map[strin
 	}
 	sort.Strings(locs)
 	for _, l := range locs {
-		if l == rootLoc && !rootHasLocation {
-			continue
-		}
+		// (when the root was loaded from memory, its copy in the storage is a document of
+		// its own, reachable through references to its location)
 		docs = append(docs, docT{l, baseOf[l], refsOf[l]})
 	}
 	byLoc := map[string]docT{}
@@ -503,11 +525,35 @@ func classifyUnjustified(loc string, readSoFar map[string]bool, refsOf map[strin
 				}
 				for _, t := range resolveSet(d.base, r) {
 					if readSoFar[t] {
-						return "wrong-base-after-right-base", fmt.Sprintf(" (it is reference %q of %s resolved against the location of %s, which refers into that document by fragment; the proper target %q had been asked for before)", r, d.loc, dp.loc, t)
+						// which shape of K1: a reference cycle back to D or D', an empty path item, or something else
+						class := "other"
+						rootCopy := !rootHasLocation && t == rootLoc && (dp.loc == "<root>" || d.loc == "<root>")
+						if reach(t)[d.loc] || reach(t)[dp.loc] || rootCopy {
+							// (rootCopy: the target is the storage copy of the in-memory root itself)
+							class = "cycle"
+						} else if !strings.Contains(r, "#") && emptyPathItem(contentOf(t)) {
+							class = "empty-pathitem"
+						}
+						return "wrong-base-after-right-base/" + class, fmt.Sprintf(" (it is reference %q of %s resolved against the location of %s, which refers into that document by fragment; the proper target %q had been asked for before)", r, d.loc, dp.loc, t)
 					}
 				}
 			}
 		}
 	}
 	return "unjustified-read", ""
+}
+
+// emptyPathItem reports whether content, read as an OpenAPI Path Item Object,
+// has none of that object's fields (or is missing / not an object).
+func emptyPathItem(content []byte) bool {
+	var m map[string]any
+	if len(content) == 0 || json.Unmarshal(content, &m) != nil {
+		return true
+	}
+	for _, k := range []string{"summary", "description", "get", "put", "post", "delete", "options", "head", "patch", "trace", "servers", "parameters", "$ref"} {
+		if _, ok := m[k]; ok {
+			return false
+		}
+	}
+	return true
 }
